@@ -127,7 +127,7 @@ type c15FE struct {
 
 func init() {
 	register(&Prop{ID: "C15", Run: c15Run,
-		Rule: "operation types are enumerated by reflection from pipeline.OpSpec (recursively through pointed-to types); each is populated by kind (strings, *string, bool, []int, []string, maps, *ValOrRef / *AnyVal / ActionSpec / ChildActions decoded from YAML or built recursively) from a seed, cloned under a real ActionContext and compared field by field (nil/empty identified), bare and wrapped in OpSpec / ActionSpec / ChildActions — the wrapping value cloned directly and through a POINTER to it ((&spec).CloneWith(ctx), an equivalent entry point) —; slices are populated with 0..2 and with 3, 5, 6, 7, 9 elements; template cases put a template over the micro-fragment `{{ .x }}` into clone:\"template\" fields — the plain `pre-{{ .x }}-post` and (VALUE RANGE, per tagged field of every operation type and at random) texts with a `}}` BEFORE the first `{{` (nested JSON in a message, `odd}}key.{{ .x }}`), the action at the very beginning / end / twice, next to braces, dots, white space, non-ASCII text and line ends — with .x from {V, a.b, 7, empty, blank, `.`, `}}`, non-ASCII …}: the clone holds the text text/template renders (every `{{ .x }}` replaced, the rest literal); template-free texts are drawn from a pool that also holds paths beginning / ending with the separator or holding an empty segment (`.defaults`, `labels.`, `a..b`: an empty-named key is a key), names that differ from their cleaned / trimmed form, leading / trailing white space, letter-case twins, supplementary-plane characters, U+FFFD, syntax look-alikes, digit strings beyond 64 bits, the empty text, `}} {{`; configured-but-empty values (non-nil pointer to \"\" / false / 0 / empty slice, empty non-nil slices and maps) are populated per field, alone and next to all other fields; value-or-reference values are populated in both kinds and in the odd forms too (an immediate value that also has Ref set, a reference that also has Val set, an empty reference); template text also goes into text fields that are NOT tagged (string, *string, []string elements, *[]string elements, *ValOrRef: the clone may hold them verbatim or rendered) and every templated value is cloned twice under different data with a deep snapshot of the original (slice elements included) compared before/after, and the FIRST clone compared with what it was before the second one was made; FAILURE THEN SUCCESS: per text field of every operation type (and at random) the field holds a template that CANNOT be rendered — it parses and fails while it is being executed, after it has produced output (field of a scalar, undefined associated template, sprig's fail, index of a missing key; short and longer than 64 bytes), or it does not parse — while the other template fields hold templates that render, and/or the clone is preceded, in the same context, by the clone of another operation whose template cannot be rendered: the unrenderable text is kept as it is, every other field holds exactly the rendered text, and a plain log operation cloned afterwards holds its rendered message; exec cases run data-only specs (set, patch, template, log, abort, define+call, loop, forEach) as original and clone on equal data (the clone first: the original must still be what it was after the clone ran) and as forEach bodies; vor cases take one value-or-reference — decoded scalar, decoded {ref: …}, composite literal with Ref AND Val, decoded reference with Val set; Ref / Val from {empty, path of a leaf, missing path, `{{ .x }}` with .x possibly empty} (small scope exhaustively, then random) — on its own ((*ValOrRef).CloneWith) and as every *ValOrRef field of every operation type found by reflection, bare / in OpSpec / in ActionSpec: the clone is compared field by field (the unexported kind flag included; reflect.DeepEqual with the original when template-free), resolved on data where the path named by Ref holds something else than Val, and executed (export: which files are written with what content, log lines; forEach over a query: log lines) against the original; feach cases run a forEach over 2-3 items whose body (log, set, template, patch, exec `true` with an argument list, in operations or in a steps child) uses `{{ .<variable> }}` and compare outcome, data and logs with a fresh copy of the body cloned+executed per item, and with a second run of the same forEach value. Non-trivial: at least one field populated. distinct = distinct canonical case JSON.",
+		Rule: "operation types are enumerated by reflection from pipeline.OpSpec (recursively through pointed-to types); each is populated by kind (strings, *string, bool, []int, []string, maps, *ValOrRef / *AnyVal / ActionSpec / ChildActions decoded from YAML or built recursively) from a seed, cloned under a real ActionContext and compared field by field (nil/empty identified), bare and wrapped in OpSpec / ActionSpec / ChildActions — the wrapping value cloned directly and through a POINTER to it ((&spec).CloneWith(ctx), an equivalent entry point) —; slices are populated with 0..2 and with 3, 5, 6, 7, 9 elements; template cases put a template over the micro-fragment `{{ .x }}` into clone:\"template\" fields — the plain `pre-{{ .x }}-post` and (VALUE RANGE, per tagged field of every operation type and at random) texts with a `}}` BEFORE the first `{{` (nested JSON in a message, `odd}}key.{{ .x }}`), the action at the very beginning / end / twice, next to braces, dots, white space, non-ASCII text and line ends — with .x from {V, a.b, 7, empty, blank, `.`, `}}`, non-ASCII …}: the clone holds the text text/template renders (every `{{ .x }}` replaced, the rest literal); template-free texts are drawn from a pool that also holds paths beginning / ending with the separator or holding an empty segment (`.defaults`, `labels.`, `a..b`: an empty-named key is a key), names that differ from their cleaned / trimmed form, leading / trailing white space, letter-case twins, supplementary-plane characters, U+FFFD, syntax look-alikes, digit strings beyond 64 bits, the empty text, `}} {{`; configured-but-empty values (non-nil pointer to \"\" / false / 0 / empty slice, empty non-nil slices and maps) are populated per field, alone and next to all other fields; value-or-reference values are populated in both kinds and in the odd forms too (an immediate value that also has Ref set, a reference that also has Val set, an empty reference); template text also goes into text fields that are NOT tagged (string, *string, []string elements, *[]string elements, *ValOrRef: the clone may hold them verbatim or rendered) and every templated value is cloned twice under different data with a deep snapshot of the original (slice elements included) compared before/after, and the FIRST clone compared with what it was before the second one was made; FAILURE THEN SUCCESS: per text field of every operation type (and at random) the field holds a template that CANNOT be rendered — it parses and fails while it is being executed, after it has produced output (field of a scalar, undefined associated template, sprig's fail, index of a missing key; short and longer than 64 bytes), or it does not parse — while the other template fields hold templates that render, and/or the clone is preceded, in the same context, by the clone of another operation whose template cannot be rendered: the unrenderable text is kept as it is, every other field holds exactly the rendered text, and a plain log operation cloned afterwards holds its rendered message; exec cases run data-only specs (set, patch, template, log, abort, define+call, loop, forEach) as original and clone on equal data (the clone first: the original must still be what it was after the clone ran) and as forEach bodies; vor cases take one value-or-reference — decoded scalar, decoded {ref: …}, composite literal with Ref AND Val, decoded reference with Val set; Ref / Val from {empty, path of a leaf, missing path, `{{ .x }}` with .x possibly empty} (small scope exhaustively, then random) — on its own ((*ValOrRef).CloneWith) and as every *ValOrRef field of every operation type found by reflection, bare / in OpSpec / in ActionSpec: the clone is compared field by field (the unexported kind flag included; reflect.DeepEqual with the original when template-free), resolved on data where the path named by Ref holds something else than Val, and executed (export: which files are written with what content, log lines; forEach over a query: log lines) against the original; feach cases run a forEach over 2-3 items whose body (log, set, template, patch, exec `true` with an argument list, in operations or in a steps child) uses `{{ .<variable> }}` and compare outcome, data and logs with a fresh copy of the body cloned+executed per item, and with a second run of the same forEach value. ROUND 6, SYNTAX LOOK-ALIKES AND SHAPES: trees held by an operation (any-values, set data, call / ext arguments; in clone, exec and nested action cases) also have KEYS that look like syntax of a neighbouring notation — dotted paths (`app.kubernetes.io/name`, `a..b`, `.lead`, `trail.`), index groups (`l[0]`, `m[1].k`), JSON pointers and their escapes (`/p`, `/a/b`, `~0`, `~1`), `k=v`, `*`, `%s`, `$x`, digits only, `-`, the empty key — and rare shapes (an empty collection followed by more content, lists directly in lists three levels deep with unequal lengths): a key is a key, the clone holds the same tree and executing it places the same tree; the value of .x is also text that LOOKS LIKE a template action which would render against the data (`{{ .other.y }}`, `v-{{ .other.y }}.yaml`, a comment action, a raw-string action, `{{ .x }}` itself), `%s`, `${x}`, `*`: the clone holds the text rendered ONCE — rendered text is text (a fixed table runs every operation type's template fields under each such value, bare and wrapped). Non-trivial: at least one field populated. distinct = distinct canonical case JSON.",
 		Assumptions: []string{"text/template + sprig is an external library: the model renders only the micro-fragment `{{ .x }}`; template-free = no `{{` … `}}` pair in any string (possiblyTemplate is false)",
 			"helpers safeRenderStrPointer/safeRenderStrSlice/safeCopyIntSlice/safeCloneValOrRef are classified by name by the extractor; their behaviour is validated only by this harness",
 			"operations with OS effects (exec, templateFile, import, export, env, ext, html2dom) are cloned and compared but not executed — except exec of the program `true` (no output, no files) in feach cases and export in vor cases (into a scratch directory under .work, which is also the working directory while the operation runs)"}})
@@ -404,7 +404,32 @@ func c15TplText(kind int) string {
 }
 
 // c15Xs: values of .x — what `{{ .x }}` renders to
-var c15Xs = []string{"V", "a.b", "7", "", " ", ".", "x y", "\U0001F680", "}}", "T", "pre.", "W"}
+var c15Xs = []string{"V", "a.b", "7", "", " ", ".", "x y", "\U0001F680", "}}", "T", "pre.", "W",
+	// values that LOOK LIKE template syntax (patterns kept verbatim in the data for another tool): what `{{ .x }}` renders
+	// to is text — an action inside it that would render against the data (other.y is there), the action itself, a
+	// comment, a printf verb, a placeholder
+	"{{ .other.y }}", "v-{{ .other.y }}.yaml", "{{ .x }}", "{{/* c */}}", "{{ `t` }}", "%s", "${x}", "*"}
+
+// c15LookXs: the values of .x among c15Xs that are template actions of their own
+var c15LookXs = []string{"{{ .other.y }}", "v-{{ .other.y }}.yaml", "{{ `t` }}"}
+
+// c15LookValues: YAML texts of any-values whose KEYS look like syntax of a neighbouring notation — dotted paths
+// (kubernetes style labels), index groups, JSON pointers, k=v, globs, printf verbs, placeholders; an empty
+// collection followed by more content; lists directly in lists three levels deep.  c15LookMaps: the same for
+// map-typed fields (set data, call / ext arguments).
+var c15LookValues = []string{
+	"{app.kubernetes.io/name: web, tier: {a.b: 1, c: [x]}}",
+	"{\"l[0]\": x, \"m[1].k\": y, plain: {\"n[2]\": [1, {\"q[0]\": z}]}}",
+	"{/p: 1, /a/b: {~0: t, \"~1\": u}, a/b: 2, \"k=v\": 3, \"*\": 4, \"%s\": 5, \"$x\": 6, \"0\": zero, \"-\": dash}",
+	"{.: dot, a..b: 1, .lead: 2, trail.: 3, \"\": empty}",
+	"[{a.b: 1}, [], {e: {}, f.g: [[1, [2, 3]], [], [4]]}, x.y]",
+	"{e: {}, l: [], after.empty: {x.y.z: [[[1], [2, 3]], []]}}",
+}
+var c15LookMaps = []string{
+	"{app.kubernetes.io/name: web, tier: {a.b: 1, c: [x]}}",
+	"{\"l[0]\": x, /p: {\"q[1].r\": y}, \"k=v\": [1, {x.y: z}], e: {}, z.after: 1}",
+	"{.: dot, a..b: {c.: 1}, \"*\": [[1, [2, 3]], []], \"%s\": s}",
+}
 
 var c15ActionYaml = []string{
 	"log:\n  message: hello\n",
@@ -414,6 +439,7 @@ var c15ActionYaml = []string{
 	"exec:\n  program: prog\n  args: [a1, a2]\n  validExitCodes: [0, 2]\n  saveExitCodeTo: ec\nexport:\n  file: out.yaml\n  path:\n    ref: some.ref\n  format: yaml\n",
 	"loop:\n  test: 'false'\n  init:\n    log:\n      message: init\n  action:\n    abort:\n      message: stop\n  postAction:\n    call:\n      name: fn\n      argsPath: ap\n      args:\n        k: v\n",
 	"templateFile:\n  file: f.tpl\n  output: o.txt\n  path: ''\nexec:\n  program: prog\n  args: []\n  stdout: ''\n  saveExitCodeTo: ''\npatch:\n  op: add\n  path: /x\n  valueFrom: ''\nforEach:\n  var: ''\n  item: []\n  action:\n    log:\n      message: ''\n",
+	"forEach:\n  item: [a]\n  action:\n    patch:\n      op: add\n      path: /metadata/labels\n      value:\n        app.kubernetes.io/name: web\n        'l[0]': [x]\n    set:\n      path: p\n      data:\n        a.b: 1\n        /c: {d.e: 2}\n",
 	"ext:\n  func: f1\n  args:\n    a: {b: 1}\ndefine:\n  name: d1\n  action:\n    templateFile:\n      file: f.tpl\n      output: o.txt\n      path: a.b\n",
 }
 
@@ -432,7 +458,8 @@ func c15Populate(v reflect.Value, r *rand.Rand, depth int, tplText string) {
 			q, _ := json.Marshal(s)
 			texts = []string{string(q), "{ref: " + string(q) + "}"}
 		default:
-			texts = []string{"{a: 1, b: [x, {c: null}], d: {}}", "[1, [2, 3], {}]", "plain", "null"}
+			// (keys of a value are keys: a dot, an index group, a pointer, k=v … inside a key is part of the name)
+			texts = append([]string{"{a: 1, b: [x, {c: null}], d: {}}", "[1, [2, 3], {}]", "plain", "null"}, c15LookValues...)
 		}
 		_ = yaml.Unmarshal([]byte(pick(r, texts)), p.Interface())
 		if vor, ok := p.Interface().(*pipeline.ValOrRef); ok {
@@ -514,7 +541,7 @@ func c15Populate(v reflect.Value, r *rand.Rand, depth int, tplText string) {
 		}
 		if t.Elem().Kind() == reflect.Interface {
 			var m map[string]interface{}
-			_ = yaml.Unmarshal([]byte(pick(r, []string{"{a: 1, b: {c: [x, y]}, s: txt}", "{}", "{k: null}", "{n: {m: {l: 1}}}"})), &m)
+			_ = yaml.Unmarshal([]byte(pick(r, append([]string{"{a: 1, b: {c: [x, y]}, s: txt}", "{}", "{k: null}", "{n: {m: {l: 1}}}"}, c15LookMaps...))), &m)
 			v.Set(reflect.ValueOf(m).Convert(t))
 			return
 		}
@@ -793,6 +820,42 @@ func c15Run(c *Ctx) {
 		}
 		c.Do("feach", e)
 	}
+	c15RunLook(c, names, types)
+}
+
+// c15RunLook (round 6): SYNTAX LOOK-ALIKES, smallest cases.  (a) the value of .x is itself text that looks like a
+// template action which WOULD render against the data: per operation type, its clone:"template" fields alone and
+// all fields, bare and wrapped — the clone holds the text rendered ONCE (rendered text is text); (b) every field
+// that holds a tree (any-value, map) alone, over a run of seeds that reaches every look-alike key text.
+func c15RunLook(c *Ctx, names []string, types map[string]reflect.Type) {
+	r := c.Rng
+	wraps := []string{"", "opspec", "action", "children"}
+	for _, n := range names {
+		t := types[n]
+		var all, tagged, trees []string
+		for i := 0; i < t.NumField(); i++ {
+			f := t.Field(i)
+			all = append(all, f.Name)
+			if f.Tag.Get("clone") == "template" {
+				tagged = append(tagged, f.Name)
+			}
+			if f.Type == c15AnyValPtr || (f.Type.Kind() == reflect.Map && f.Type.Elem().Kind() == reflect.Interface) {
+				trees = append(trees, f.Name)
+			}
+		}
+		if len(tagged) > 0 {
+			for _, x := range c15LookXs {
+				c.Do("clone", c15Clone{Op: n, Fields: tagged, Seed: r.Int63n(1 << 30), Tpl: tagged, X: x})
+				c.Do("clone", c15Clone{Op: n, Fields: tagged, Seed: r.Int63n(1 << 30), Tpl: tagged, X: x, TplKind: 1})
+				c.Do("clone", c15Clone{Op: n, Fields: all, Seed: r.Int63n(1 << 30), Tpl: tagged, X: x, TplKind: r.Intn(len(c15TplTexts)), Wrap: pick(r, wraps)})
+			}
+		}
+		for _, f := range trees {
+			for seed := int64(0); seed < 24; seed++ {
+				c.Do("clone", c15Clone{Op: n, Fields: []string{f}, Seed: seed, X: "V", Wrap: wraps[int(seed)%len(wraps)]})
+			}
+		}
+	}
 }
 
 // c15GenTplBody generates a forEach body whose text fields use ref (= `{{ .<variable> }}`).
@@ -840,7 +903,9 @@ func c15GenSpec(r *rand.Rand, depth int) map[string]any {
 	// (paths that begin / end with the separator address an empty-named key: legal, and the clone's path is the same)
 	paths := []string{"a", "a.b", "k1.c", "n.m", "b", ".defaults", "labels.", "a..b", "A.b"}
 	plain := func() map[string]any {
-		return pick(r, []map[string]any{{"a": 1}, {"a": map[string]any{"b": "x"}, "k1": []any{1, 2}}, {"n": map[string]any{"m": map[string]any{"l": true}}}, {}})
+		return pick(r, []map[string]any{{"a": 1}, {"a": map[string]any{"b": "x"}, "k1": []any{1, 2}}, {"n": map[string]any{"m": map[string]any{"l": true}}}, {},
+			// keys that look like syntax (dotted, index group, pointer, k=v)
+			{"a.b": 1, "k1": map[string]any{"c.d/e": "x"}}, {"/a": 1, "k=v": []any{1, map[string]any{"x.y": 2}}, "*": "g"}})
 	}
 	nOps := 1 + r.Intn(2)
 	for i := 0; i < nOps; i++ {
@@ -858,7 +923,9 @@ func c15GenSpec(r *rand.Rand, depth int) map[string]any {
 			p := map[string]any{"op": pick(r, []string{"add", "replace", "remove", "test"}), "path": pick(r, []string{"/a", "/a/b", "/k1/0", "/new", "/b"})}
 			switch r.Intn(3) {
 			case 0:
-				p["value"] = pick(r, []any{1, "s", map[string]any{"z": []any{1}}, []any{"p", "q"}})
+				p["value"] = pick(r, []any{1, "s", map[string]any{"z": []any{1}}, []any{"p", "q"},
+					map[string]any{"app.kubernetes.io/name": "web", "tier": map[string]any{"a.b": 1}}, map[string]any{"l[0]": "x", "/p": []any{map[string]any{"q.r": 2}}, "k=v": 3},
+					[]any{map[string]any{"x.y": 1}, []any{[]any{1, []any{2}}, []any{}}, map[string]any{}}})
 			case 1:
 				p["valueFrom"] = pick(r, paths)
 			}
@@ -881,7 +948,8 @@ func c15GenSpec(r *rand.Rand, depth int) map[string]any {
 			spec["abort"] = map[string]any{"message": "stop here"}
 		case k == 5 && depth < 2:
 			spec["define"] = map[string]any{"name": "fn", "action": c15GenSpec(r, depth+1)}
-			call := map[string]any{"name": "fn", "args": map[string]any{"p": "v", "q": map[string]any{"r": "s"}}}
+			call := map[string]any{"name": "fn", "args": pick(r, []map[string]any{{"p": "v", "q": map[string]any{"r": "s"}}, {"p": "v", "q": map[string]any{"r": "s"}},
+				{"p.v": "w", "q": map[string]any{"r.s/t": "s", "l[0]": "x"}, "k=v": "y"}})}
 			if r.Intn(2) == 0 {
 				call["argsPath"] = pick(r, []string{"ap", "p.q"})
 			}
@@ -1397,5 +1465,21 @@ func c15EvalExec(c *Ctx, p c15Exec) {
 		c.Direct("forEach-body-same-effect(outcome)", ref.Out == ro.Out, map[string]any{"forEach": ro.Out, "sequential": ref.Out})
 		c.Direct("forEach-body-same-effect(data)", canon(ref.Data) == canon(ro.Data), map[string]any{"forEach": ro.Data, "sequential": ref.Data})
 		c.Direct("forEach-body-same-effect(logs)", canon(ref.Logs) == canon(ro.Logs), map[string]any{"forEach": ro.Logs, "sequential": ref.Logs})
+	}
+}
+
+// self-check: every look-alike text is YAML the decoder reads (a text it rejects would silently populate nothing)
+func init() {
+	for _, t := range append(append([]string{}, c15LookValues...), c15LookMaps...) {
+		var n yaml.Node
+		if err := yaml.Unmarshal([]byte(t), &n); err != nil {
+			panic(fmt.Sprintf("c15: look-alike text %q is not YAML: %v", t, err))
+		}
+	}
+	for _, t := range c15LookMaps {
+		var m map[string]interface{}
+		if err := yaml.Unmarshal([]byte(t), &m); err != nil || len(m) == 0 {
+			panic(fmt.Sprintf("c15: look-alike text %q does not decode into a map: %v", t, err))
+		}
 	}
 }
